@@ -78,6 +78,7 @@ class FuncResult:
                 "error": self.error, "solver_calls": self.solver_calls, "solver_time_s": round(self.solver_time, 3),
                 "wall_s": round(self.wall, 3), "source_hash": self.source_hash, "truncated": self.truncated,
                 "covers": self.covers, "xchecks": self.xchecks, "xskipped": self.xskipped,
+                "solver_disagreements": getattr(self, "solver_disagreements", []),
                 "obligations": [o.to_json() for o in self.obs.values()]}
 
 
@@ -136,6 +137,17 @@ class Ctx:
             ob.discharged += 1
             fr.ob_cache.add(ckey)
             ob.backends["z3"] = ob.backends.get("z3", 0) + 1
+            if os.environ.get("PYVC_TIER") == "thorough":
+                # thorough tier: an independent second solver re-decides a sample of the discharged instances (the first three of every named
+                # obligation, then every fourth); `sat` from cvc5 where z3 said `unsat` is a checker error, never a verdict
+                k_ = ob.backends.get("z3", 0)
+                if k_ <= 3 or k_ % 4 == 0:
+                    from .solve import cvc5_check
+                    res2 = cvc5_check(run.pc + [z3.Not(t)], timeout_s=10)
+                    ob.backends["cvc5-" + ("confirms" if res2 == "unsat" else ("DISAGREES" if res2 == "sat" else "no-answer"))] = \
+                        ob.backends.get("cvc5-" + ("confirms" if res2 == "unsat" else ("DISAGREES" if res2 == "sat" else "no-answer")), 0) + 1
+                    if res2 == "sat":
+                        fr.solver_disagreements = getattr(fr, "solver_disagreements", []) + [f"{name} @ {' ; '.join(run.trace)[:200]}"]
             if ob.sample_smt is None:
                 ob.sample_smt = str(t)[:400]
         elif r == z3.sat:
